@@ -9,6 +9,8 @@
 //!       comes back with a connection that cannot be shared, whatever the request asked for) | `f r` the response
 //!       arrives | `cr c` connection ready again | `cc c` peer closes connection | `run`
 //!       | `t ms` (real sleep, tokio's paused clock advanced by as much, no task runs) | `mark`
+//!       | `shutdown` the runtime that hosts the spawned tasks is shut down (every task is dropped) while the pool lives on;
+//!         the following ops run on a fresh runtime
 //! The inner service is hyperdriver's own `RequestExecutor`; the scripted connection's response future
 //! completes at `f r`, and its readiness (`cr c`) is scripted independently of that.
 //! obs per op: `<res> <connecting> <waiting> <idle> <h1drops> <dials>`, ops separated by ` ; `
@@ -366,7 +368,10 @@ impl Session {
     fn conns(&self, busy: bool) -> Vec<usize> { let w = self.w.lock().unwrap(); (0..w.conns.len()).filter(|i| w.conns[*i].open.load(Ordering::SeqCst) && w.conns[*i].busy.load(Ordering::SeqCst) == busy).collect() }
 }
 
-async fn run_case(cfg: &[&str], ops: &[Vec<&str>]) -> String {
+fn new_rt() -> tokio::runtime::Runtime { tokio::runtime::Builder::new_current_thread().enable_time().start_paused(true).build().unwrap() }
+
+fn run_case(cfg: &[&str], ops: &[Vec<&str>]) -> String {
+    let mut rt = new_rt();
     let mut sess = Session::new(cfg);
     let mut out: Vec<String> = Vec::new();
     // idle expiry uses the real clock: if the machine stalls, the measured case says nothing
@@ -374,11 +379,20 @@ async fn run_case(cfg: &[&str], ops: &[Vec<&str>]) -> String {
     let mut unreliable = false;
     for op in ops {
         let t0 = std::time::Instant::now();
-        out.push(sess.apply(op).await);
+        if op.first() == Some(&"shutdown") {
+            // dropping the runtime drops every task spawned on it; the service, its pool and the request futures live on
+            drop(rt);
+            rt = new_rt();
+            out.push(format!("D {}", snapshot(&sess.svc, &sess.w)));
+        } else {
+            out.push(rt.block_on(sess.apply(op)));
+        }
         let el = t0.elapsed().as_millis() as u64;
         let allowed = if op.first() == Some(&"t") { op.get(1).and_then(|s| s.parse::<u64>().ok()).unwrap_or(0) + 20 } else { 12 };
         if timed && el > allowed { unreliable = true; }
     }
+    // what is still held (requests with a connection) is released inside a runtime: `Pooled::drop` spawns its hand-back task
+    { let _g = rt.enter(); drop(sess); }
     if unreliable { return "unreliable".into(); }
     out.join(" ; ")
 }
@@ -389,15 +403,46 @@ pub fn run(toks: &[&str]) -> String {
     if parts[0].len() < 3 { return "bad-input".into(); }
     let cfg = parts[0].clone();
     let ops: Vec<Vec<&str>> = parts[1..].to_vec();
-    let rt = tokio::runtime::Builder::new_current_thread().enable_time().start_paused(true).build().unwrap();
-    rt.block_on(run_case(&cfg, &ops))
+    run_case(&cfg, &ops)
 }
 
 // ------------------------------------------------------------------------------------------
 /// Feedback-driven generation: the schedule is produced while running the real pool, so that most
 /// operations are enabled (a pollable checkout, a pending dial, a busy connection, ...); about one
 /// op in twelve is drawn blindly to keep disabled ops in the mix. Only the op list is emitted.
-pub fn gen(r: &mut Rng, i: u64) -> String { if i % 1000 == 999 { gen_many_origins(r) } else { gen_mode(r, i, false) } }
+pub fn gen(r: &mut Rng, i: u64) -> String { if i % 1000 == 999 { gen_many_origins(r) } else if i % 40 == 39 { gen_shutdown(r) } else { gen_mode(r, i, false) } }
+
+/// The runtime that hosts the pool's background tasks goes away while the client lives on (a client shared between
+/// runtimes): released connections still waiting to become ready, and abandoned attempts carried on in the background.
+fn gen_shutdown(r: &mut Rng) -> String {
+    let k = r.below(KEYS.len() as u64);
+    let lax = r.chance(1, 2) as u8;
+    let cap = r.chance(1, 2) as u8;
+    let mut ops: Vec<String> = Vec::new();
+    let n = r.range(1, 3);
+    for q in 0..n { ops.push(format!("i {q} {k} 0")); ops.push(format!("p {q}")); ops.push(format!("d {q} ok0")); ops.push(format!("p {q}")); }
+    // responses arrive; some connections are ready again before the shutdown, some not, some hand-back tasks have run, some not
+    for q in 0..n {
+        ops.push(format!("f {q}"));
+        if r.chance(1, 2) { ops.push(format!("cr {q}")); }
+        if r.chance(1, 2) { ops.push("run".into()); }
+    }
+    // an HTTP/2 attempt with a waiter, abandoned by its request
+    let m = 10;
+    if r.chance(2, 3) {
+        ops.push(format!("i {m} {k} 1")); ops.push(format!("p {m}"));
+        ops.push(format!("i {} {k} 1", m + 1)); ops.push(format!("p {}", m + 1));
+        ops.push(format!("c {m}"));
+        if r.chance(1, 2) { ops.push("run".into()); }
+    }
+    ops.push("shutdown".into());
+    ops.push(format!("p {}", m + 1));
+    for q in 0..n { if r.chance(1, 2) { ops.push(format!("cr {q}")); } }
+    ops.push("run".into());
+    for q in 20..22 { ops.push(format!("i {q} {k} 0")); ops.push(format!("p {q}")); ops.push(format!("d {q} ok0")); ops.push(format!("p {q}")); }
+    ops.push("mark".into()); ops.push("run".into()); ops.push("mark".into()); ops.push("mark".into());
+    format!("- {} {cap} {lax} ; {}", r.pick(&[32u64, 1]), ops.join(" ; "))
+}
 
 /// A pool that has seen several hundred origins: a few early ones leave a connection behind (idle, or still in use),
 /// then every further origin is asked for once, then the early ones again.
